@@ -110,9 +110,18 @@ func c16Parsley(data []byte, mk func() parsley.Parser) (out string) {
 	}()
 	f := text.NewFile("doc.json", data)
 	fs := parsley.NewFileSet(f)
+	// one parser value for all the evaluations of this document, after it has evaluated other documents
+	p := mk()
+	for _, w := range warmInputs(data) {
+		wf, wfs := warmFile(w, 1)
+		func() {
+			defer func() { _ = recover() }()
+			_, _ = parsley.Evaluate(parsley.NewContext(wfs, text.NewReader(wf)), p)
+		}()
+	}
 	eval := func(fs *parsley.FileSet, r parsley.Reader) string {
 		ctx := parsley.NewContext(fs, r)
-		res, err := parsley.Evaluate(ctx, mk())
+		res, err := parsley.Evaluate(ctx, p)
 		if err != nil {
 			return OT("Err", OStr(err.Error()))
 		}
